@@ -61,6 +61,7 @@ var commonAssumptions = []string{
 
 func init() {
 	reg("C12", "exploration", false, 160000, 25, 6000000, 240, 3)
+	reg("C04", "exploration", false, 100000, 30, 4000000, 240, 3)
 }
 
 type findings struct {
